@@ -24,6 +24,8 @@ def eligible(contract):
     for sp in (contract.loops or {}).values():
         if getattr(sp, "invariant", None):
             return False
+    if getattr(contract, "abstract_calls", None):
+        return False        # callees replaced by uninterpreted stand-ins: nothing to run natively
     return not contract.regions
 
 
